@@ -253,8 +253,16 @@ class Stateful(Stateless):
                 self.state = unstate(state)
 
 
-def builder(name: str, stateful: bool = False, nout: int = 1, log: typing.Optional[str] = None) -> 'flow.Builder':
-    return (Stateful if stateful else Stateless).builder(name=name, nout=nout, log=log)
+class Hollow(Stateful):
+    """A trained actor with nothing to persist (nothing learnt / a train function returning None): its state is the empty
+    byte string before and after training."""
+
+    def get_state(self) -> bytes:
+        return b''
+
+
+def builder(name: str, stateful: bool = False, nout: int = 1, log: typing.Optional[str] = None, hollow: bool = False) -> 'flow.Builder':
+    return (Hollow if stateful and hollow else Stateful if stateful else Stateless).builder(name=name, nout=nout, log=log)
 
 
 def strip_out(value: typing.Any) -> Term:
